@@ -307,14 +307,17 @@ def internal_specs(sc):
     for on_pass in ((0, 1) if p8 else (0,)):
         for after in (0, 1, 2, 5, BIG):
             specs.append({'kind': 'lua_writer_raises', 'on_pass': on_pass, 'after': after})
-    if p8:
-        for v in range(4):
-            for at in ('start', 'end'):
-                if v in (1, 3) and at == 'start':
-                    # an unclosed [[ or " in front of the code may be closed by a ]] or " in the code
-                    # (picotool's lexer lets a quoted string run over line ends): not reliably unparseable
-                    continue
+    for v in range(4):
+        for at in ('start', 'end'):
+            if v in (1, 3) and at == 'start':
+                # an unclosed [[ or " in front of the code may be closed by a ]] or " in the code
+                # (picotool's lexer lets a quoted string run over line ends): not reliably unparseable
+                continue
+            # (for .p8.png the encoder has no sanity re-parse: the write may legitimately succeed; but IF the
+            # call fails - e.g. a variant that validates the written cart - the destination must be intact)
+            if p8 or (v, at) in ((0, 'end'), (2, 'end')):
                 specs.append({'kind': 'lua_writer_unparseable', 'variant': v, 'at': at})
+    if p8:
         secs = ['gfx'] + (['label'] if sc.has_label() else []) + ['gff', 'map', 'sfx', 'music']
         for s in secs:
             for after in (0, 1, BIG):
@@ -372,6 +375,11 @@ def judge(sc, spec, inj, err, rc, good, td, case):
             labs.append(kind + '_failed')
         return fired, labs
     # the call reported success
+    if kind == 'lua_writer_unparseable' and sc.fmt != 'p8':
+        # no failure happened: the .p8.png encoder accepts whatever the writer emits
+        labs.append('unparseable_accepted_by_png_encoder')
+        sc.reset()
+        return fired, labs
     if not fired:
         labs.append('fault_not_reached')
     else:
